@@ -20,6 +20,8 @@ pub enum Op {
     Del(String),
     /// complete_compaction(sources, target)
     Compact(Vec<String>, String),
+    /// complete_compaction_with_target(sources, target chunk covering hours [h0, h1]): what the compactor calls
+    CompactWith(Vec<String>, String, i64, i64),
 }
 
 #[derive(Debug, Clone, serde::Serialize, serde::Deserialize)]
@@ -62,6 +64,19 @@ fn apply(m: &mut Model, op: &Op) -> bool {
                 }
                 None => false,
             }
+        }
+        Op::CompactWith(src, tgt, h0, h1) => {
+            // refuses (without effect) when a source is gone; otherwise swaps the sources for the new target
+            if src.iter().any(|p| !m.contains_key(p)) {
+                return false;
+            }
+            let lvl = src.iter().filter_map(|p| m.get(p).map(|e| e.2)).max().unwrap_or(0) + 1;
+            for p in src {
+                m.remove(p);
+            }
+            let (a, b) = iv(*h0, *h1);
+            m.insert(tgt.clone(), (a, b, lvl));
+            true
         }
     }
 }
@@ -160,6 +175,10 @@ impl Scenario for C02Scenario {
                         }
                         Op::Del(p) => client.delete_chunk(p).await,
                         Op::Compact(s, t) => client.complete_compaction(s, t).await,
+                        Op::CompactWith(s, t, h0, h1) => {
+                            let (a, b) = iv(*h0, *h1);
+                            client.complete_compaction_with_target(s, &chunk_meta(t, a, b)).await
+                        }
                     };
                     let ret = clock.fetch_add(1, Ordering::SeqCst);
                     let mut r = recs.lock().unwrap();
@@ -218,13 +237,13 @@ impl Scenario for C02Scenario {
         // (c) a registration that reported failure appears in no version
         for r in &recs {
             if r.ok == Some(false) {
-                if let Op::Reg(p, _, _) = &r.op {
-                    let unique = recs.iter().filter(|o| matches!(&o.op, Op::Reg(q, _, _) if q == p)).count() == 1
+                if let Op::Reg(p, _, _) | Op::CompactWith(_, p, _, _) = &r.op {
+                    let unique = recs.iter().filter(|o| matches!(&o.op, Op::Reg(q, _, _) | Op::CompactWith(_, q, _, _) if q == p)).count() == 1
                         && !self.prog.initial.iter().any(|(q, _, _)| q == p);
                     if unique && self.ever_visible.contains(p) {
                         f.violations.push(Violation {
                             sig: "C02:failed-op-visible".into(),
-                            msg: format!("register({p}) returned Err({:?}) but a catalog version lists it", r.err),
+                            msg: format!("{:?} returned Err({:?}) but a catalog version lists {p}", r.op, r.err),
                         });
                     }
                 }
@@ -366,7 +385,36 @@ pub fn programs(tier: &str) -> Vec<Program> {
             clients: vec![vec![Op::Reg(s("a"), 1, 1), Op::Reg(s("c"), 2, 2)], vec![Op::Reg(s("b"), 1, 1), Op::Del(s("p1"))]],
         },
     ];
+    v.push(Program {
+        name: s("compactwith-overlapping-sources"),
+        initial: pop.clone(),
+        clients: vec![vec![Op::CompactWith(vec![s("p0"), s("p1")], s("t1"), 1, 1)], vec![Op::CompactWith(vec![s("p1"), s("p2")], s("t2"), 1, 3)]],
+    });
+    v.push(Program {
+        name: s("compactwith-same-sources"),
+        initial: pop.clone(),
+        clients: vec![vec![Op::CompactWith(vec![s("p0"), s("p1")], s("t1"), 1, 1)], vec![Op::CompactWith(vec![s("p0"), s("p1")], s("t2"), 1, 1)]],
+    });
+    v.push(Program {
+        name: s("compactwith-vs-delete-of-a-source"),
+        initial: pop.clone(),
+        clients: vec![vec![Op::CompactWith(vec![s("p0"), s("p1")], s("t"), 1, 1)], vec![Op::Del(s("p1")), Op::Reg(s("b"), 2, 2)]],
+    });
+    v.push(Program {
+        name: s("compactwith-chain"),
+        initial: pop.clone(),
+        clients: vec![vec![Op::CompactWith(vec![s("p0"), s("p1")], s("t1"), 1, 1), Op::CompactWith(vec![s("t1"), s("p2")], s("t2"), 1, 3)], vec![Op::Reg(s("a"), 1, 1), Op::Compact(vec![s("p2")], s("a"))]],
+    });
     if tier == "thorough" {
+        v.push(Program {
+            name: s("three-clients-compactwith"),
+            initial: pop.clone(),
+            clients: vec![
+                vec![Op::CompactWith(vec![s("p0"), s("p1")], s("t1"), 1, 1)],
+                vec![Op::CompactWith(vec![s("p1"), s("p2")], s("t2"), 1, 3)],
+                vec![Op::CompactWith(vec![s("p0"), s("p2")], s("t3"), 1, 3)],
+            ],
+        });
         v.push(Program {
             name: s("three-clients-reg"),
             initial: vec![],
@@ -386,6 +434,41 @@ pub fn programs(tier: &str) -> Vec<Program> {
         v.push(Program { name: s("retry-exhaustion/delete"), initial: pop.clone(), clients: vec![vec![Op::Del(s("p0"))], adversary.clone()] });
         v.push(Program { name: s("retry-exhaustion/compact"), initial: pop.clone(), clients: vec![vec![Op::Compact(vec![s("p0"), s("p1")], s("p2"))], adversary.clone()] });
         v.push(Program { name: s("retry-exhaustion/register"), initial: pop.clone(), clients: vec![vec![Op::Reg(s("v"), 2, 3)], adversary] });
+    }
+    v
+}
+
+/// Generated family: every unordered pair of client programs of 1..=max_len operations over the alphabet
+/// below, on the populated catalog {p0, p1 (hour 1), p2 (hours 1-3)}. Both clients draw from the same
+/// alphabet, so identical operations collide too.
+pub fn generated_programs(max_len: usize) -> Vec<Program> {
+    let pop = vec![(s("p0"), 1, 1), (s("p1"), 1, 1), (s("p2"), 1, 3)];
+    let alphabet: Vec<Op> = vec![
+        Op::Reg(s("a"), 1, 1),
+        Op::Reg(s("p0"), 2, 4), // re-registration of a live path with another interval
+        Op::Del(s("p0")),
+        Op::Del(s("p1")),
+        Op::Compact(vec![s("p0"), s("p1")], s("p2")),
+        Op::Compact(vec![s("p1")], s("a")), // target known only if a registration came first
+        Op::CompactWith(vec![s("p0"), s("p1")], s("t1"), 1, 1),
+        Op::CompactWith(vec![s("p1"), s("p2")], s("t2"), 1, 3),
+    ];
+    let mut seqs: Vec<Vec<Op>> = Vec::new();
+    for a in &alphabet {
+        seqs.push(vec![a.clone()]);
+    }
+    if max_len >= 2 {
+        for a in &alphabet {
+            for b in &alphabet {
+                seqs.push(vec![a.clone(), b.clone()]);
+            }
+        }
+    }
+    let mut v = Vec::new();
+    for i in 0..seqs.len() {
+        for j in i..seqs.len() {
+            v.push(Program { name: format!("gen/{i}x{j}"), initial: pop.clone(), clients: vec![seqs[i].clone(), seqs[j].clone()] });
+        }
     }
     v
 }
@@ -427,6 +510,54 @@ pub fn run(tier: &str) -> i32 {
             prog.name, st.executions, st.states, st.pruned, st.max_depth, st.outcomes.len(), st.wall_s, if st.capped { " CAPPED" } else { "" }
         );
         rep.absorb_explore(&prog.name, &serde_json::to_value(&prog).unwrap(), &st, cfg.bounds);
+    }
+    // generated family: every pair of client programs over the operation alphabet
+    {
+        let max_len = 2;
+        let progs = generated_programs(max_len);
+        let quick_subset = tier != "thorough";
+        // quick: 1 op vs 1 op, 1 op vs 2 ops, and every 3rd 2-vs-2 pair; thorough: all pairs
+        let progs: Vec<Program> = progs
+            .into_iter()
+            .enumerate()
+            .filter(|(k, p)| !quick_subset || p.clients[0].len() == 1 || k % 3 == 0)
+            .map(|(_, p)| p)
+            .collect();
+        let t0 = std::time::Instant::now();
+        let bounds = Cost { preempt: 1000, ..Cost::ZERO };
+        let stats = explore_many(progs.iter().map(|p| factory(p.clone())).collect(), &|_| ExploreConfig {
+            bounds,
+            use_cache: true,
+            wall_cap: Duration::from_secs(600),
+            selftest: 1,
+            ..Default::default()
+        });
+        let (mut ex, mut stt, mut tr, mut outc, mut multi) = (0u64, 0u64, 0u64, 0u64, 0u64);
+        for (p, st) in progs.iter().zip(stats.iter()) {
+            ex += st.executions;
+            stt += st.states;
+            tr += st.transitions;
+            outc += st.outcomes.len() as u64;
+            if st.outcomes.len() > 1 {
+                multi += 1;
+            }
+            if st.flags.contains_key("cas_conflict_and_retry") {
+                conflict_seen = true;
+            }
+            rep.absorb_explore_compact(&p.name, &serde_json::to_value(p).unwrap(), st, bounds);
+        }
+        println!(
+            "  C02 generated: {} programs (2 clients x 1..={} ops over 8 operations, all interleavings) executions={} states={} outcomes={} programs-with-several-outcomes={} {:.1}s",
+            progs.len(), max_len, ex, stt, outc, multi, t0.elapsed().as_secs_f64()
+        );
+        let scen = rep.coverage.entry("scenarios".to_string()).or_insert_with(|| json!([]));
+        if let Some(a) = scen.as_array_mut() {
+            a.push(json!({"scenario": "generated family", "programs": progs.len(), "clients": 2, "ops_per_client": format!("1..={max_len}"), "alphabet": 8,
+                "bounds_completed": {"preemptions": "unbounded"}, "executions": ex, "states": stt, "transitions": tr, "distinct_outcomes_summed": outc, "programs_with_several_outcomes": multi}));
+        }
+        if multi == 0 {
+            rep.machinery("vacuity guard: no generated program had more than one outcome");
+        }
     }
     rep.set("rule", "an execution = one complete interleaving of the clients' object-store requests; distinct = distinct state fingerprints (store image + every node's response history + operation results)");
     let d = rep.get_u64("states");
